@@ -49,6 +49,10 @@ func genBytesHex(t *rapid.T, label string, allowEmpty bool) string {
 		n := rapid.SampledFrom([]int{31, 32, 33, 64, 500, 1023, 1024, 1025, 2000, 4096}).Draw(t, label+"_len")
 		return hx.HexBytes(hx.ExpandBytes(rapid.Uint64().Draw(t, label+"_seed"), "trbytes", n))
 	case 3:
+		if rapid.IntRange(0, 5).Draw(t, label+"_huge") == 0 { // rarely: tens of kilobytes pending
+			n := rapid.SampledFrom([]int{8192, 17000, 40000}).Draw(t, label+"_hugelen")
+			return hx.HexBytes(hx.ExpandBytes(uint64(n), "trhuge", n))
+		}
 		return hx.HexBytes(make([]byte, rapid.IntRange(1, 40).Draw(t, label+"_zeros")))
 	default:
 		return hx.HexBytes(hx.ExpandBytes(rapid.Uint64().Draw(t, label+"_seed"), "trbytes", rapid.IntRange(1, 48).Draw(t, label+"_n")))
